@@ -824,6 +824,21 @@ NECESSITY = [
     ('key', 'CoseKeyBuilder', 'param', '!(0 <= label <= 5)', 'reserved'),
     ('cwt', 'ClaimsSetBuilder', 'claim', '!(1 <= name.spec_to_i64() <= 7)', 'reserved'),
     ('cwt', 'ClaimsSetBuilder', 'private_claim', 'id < -65536', 'private'),
+    # the callers that document the same panic themselves
+    ('mac', 'CoseMac', 'verify_tag', 'self.payload is Some', 'payload'),
+    ('mac', 'CoseMac0', 'verify_tag', 'self.payload is Some', 'payload'),
+    ('mac', 'CoseMacBuilder', 'create_tag', 'self.inner().payload is Some', 'payload'),
+    ('mac', 'CoseMacBuilder', 'try_create_tag', 'self.inner().payload is Some', 'payload'),
+    ('mac', 'CoseMac0Builder', 'create_tag', 'self.inner().payload is Some', 'payload'),
+    ('mac', 'CoseMac0Builder', 'try_create_tag', 'self.inner().payload is Some', 'payload'),
+    ('encrypt', 'CoseRecipientBuilder', 'create_ciphertext', 'is_recipient_ctx(context)', 'context'),
+    ('encrypt', 'CoseRecipientBuilder', 'try_create_ciphertext', 'is_recipient_ctx(context)', 'context'),
+    ('sign', 'CoseSign', 'verify_detached_signature', 'self.payload is None', 'payload'),
+    ('sign', 'CoseSign1', 'verify_detached_signature', 'self.payload is None', 'payload'),
+    ('sign', 'CoseSignBuilder', 'add_detached_signature', 'self.inner().payload is None', 'payload'),
+    ('sign', 'CoseSignBuilder', 'try_add_detached_signature', 'self.inner().payload is None', 'payload'),
+    ('sign', 'CoseSign1Builder', 'create_detached_signature', 'self.inner().payload is None', 'payload'),
+    ('sign', 'CoseSign1Builder', 'try_create_detached_signature', 'self.inner().payload is None', 'payload'),
 ]
 
 
